@@ -147,7 +147,7 @@ func contains(s, sub string) bool {
 func init() {
 	Register(&Prop{
 		ID:    "C01",
-		Rule:  "same enumeration as C02 (skeleton, mode, ≤k focus units over full alphabets, all field visit orders); non-trivial = a deviating case on which the call returned no issues (the oracle walks the destination); distinct = distinct (skeleton, mode, schema configuration) among those. plus " + callsRule + " (C01 reports the sequences in which a call came back without issues although the same call made alone reports a violation). plus " + layoutRule + " (C01 reports runs with fewer issues than the fresh schema). plus built-in string tests (Email, URL, Contains, HasSuffix, Len, Max, Min; plain and negated) on mail addresses, URLs and repeated letters of 63..70000 bytes at top level, as field and as element in both modes: no issue ⇒ the destination value satisfies the test",
+		Rule:  "same enumeration as C02 (skeleton, mode, ≤k focus units over full alphabets, all field visit orders); non-trivial = a deviating case on which the call returned no issues (the oracle walks the destination); distinct = distinct (skeleton, mode, schema configuration) among those. plus " + callsRule + " (C01 reports the sequences in which a call came back without issues although the same call made alone reports a violation). plus " + layoutRule + " (C01 reports runs with fewer issues than the fresh schema). plus built-in string tests (Email, URL, Contains, HasSuffix, Len, Max, Min; plain and negated) on mail addresses, URLs and repeated letters of 63..70000 bytes at top level, as field and as element in both modes: no issue ⇒ the destination value satisfies the test. plus every chain of 2 or 3 numeric bounds (GT, GTE, LT, LTE, EQ with limits 5 and 10, any order, repeats allowed) on Int and Float64 nodes at top level and as field, subjects 4..11 and 5.5, both modes: no issue ⇒ every declared bound holds, and the issue codes are exactly the failing bounds in declaration order",
 		Floor: 50,
 		Bound: func(tier string) string {
 			k, e := coreK(tier)
@@ -163,6 +163,7 @@ func init() {
 			items = append(items, callsItems(tier, "C01", "clean-despite-violation", "panic")...)
 			// "...or an earlier call" on the same schema object with another destination type
 			items = append(items, layoutItems(tier, "C01", "issues-missing", "panic")...)
+			items = append(items, Item{Name: "number-bound-chains", MaxDevs: -1, Run: c01NumberChainScenario})
 			return append(items, Item{Name: "builtin-tests-on-long-values", MaxDevs: -1, Run: c01BuiltinLongScenario})
 		},
 	})
@@ -291,6 +292,140 @@ func c01BuiltinLongScenario(x *mc.X) *mc.Outcome {
 	if nIssues == 0 && !holds {
 		x.Note("test %s, value of %d bytes (shape %d: 0 mail address, 1 URL, 2 repeated letter), placement %d (0 top, 1 field, 2 element), mode %d", name, len(subj), shape, place, mode)
 		out.Viol = append(out.Viol, &mc.Violation{Key: "C01:builtin-long-value:" + name, What: "no issue was reported although the value in the destination does not satisfy the declared built-in test", Expected: "an issue, or a value for which the test holds", Observed: fmt.Sprintf("no issues; value of %d bytes beginning %q", len(dest), clip(dest))})
+	}
+	return out
+}
+
+// ---------------------------------------------------------------------------
+// Chains of numeric bounds: each declared bound is its own test. When the call reports no issue every bound
+// holds of the destination value; the reported codes are the failing bounds, one each, in declaration order.
+
+type c01Num struct {
+	I int
+	F float64
+}
+
+func c01NumberChainScenario(x *mc.X) *mc.Outcome {
+	zh.Reset()
+	zh.Install(x, zh.PoolLIFO, zh.OrderSorted)
+	type bound struct {
+		name string
+		code string
+		pred func(v float64) bool
+		ai   func(s *z.NumberSchema[int]) *z.NumberSchema[int]
+		af   func(s *z.NumberSchema[float64]) *z.NumberSchema[float64]
+	}
+	var bounds []bound
+	for _, n := range []int{5, 10} {
+		n := n
+		f := float64(n)
+		bounds = append(bounds,
+			bound{fmt.Sprintf("GT(%d)", n), "gt", func(v float64) bool { return v > f }, func(s *z.NumberSchema[int]) *z.NumberSchema[int] { return s.GT(n) }, func(s *z.NumberSchema[float64]) *z.NumberSchema[float64] { return s.GT(f) }},
+			bound{fmt.Sprintf("GTE(%d)", n), "gte", func(v float64) bool { return v >= f }, func(s *z.NumberSchema[int]) *z.NumberSchema[int] { return s.GTE(n) }, func(s *z.NumberSchema[float64]) *z.NumberSchema[float64] { return s.GTE(f) }},
+			bound{fmt.Sprintf("LT(%d)", n), "lt", func(v float64) bool { return v < f }, func(s *z.NumberSchema[int]) *z.NumberSchema[int] { return s.LT(n) }, func(s *z.NumberSchema[float64]) *z.NumberSchema[float64] { return s.LT(f) }},
+			bound{fmt.Sprintf("LTE(%d)", n), "lte", func(v float64) bool { return v <= f }, func(s *z.NumberSchema[int]) *z.NumberSchema[int] { return s.LTE(n) }, func(s *z.NumberSchema[float64]) *z.NumberSchema[float64] { return s.LTE(f) }},
+			bound{fmt.Sprintf("EQ(%d)", n), "eq", func(v float64) bool { return v == f }, func(s *z.NumberSchema[int]) *z.NumberSchema[int] { return s.EQ(n) }, func(s *z.NumberSchema[float64]) *z.NumberSchema[float64] { return s.EQ(f) }},
+		)
+	}
+	length := 2 + x.Choose(2, "chain length")
+	var chain []bound
+	var names []string
+	for i := 0; i < length; i++ {
+		b := bounds[x.Choose(len(bounds), "bound")]
+		chain = append(chain, b)
+		names = append(names, b.name)
+	}
+	float := x.Bool("float64")
+	subjects := []float64{4, 5, 6, 9, 10, 11}
+	if float {
+		subjects = append(subjects, 5.5)
+	}
+	subj := subjects[x.Choose(len(subjects), "subject")]
+	place := x.Choose(2, "placement")
+	mode := x.Choose(2, "mode")
+	si, sf := z.Int(), z.Float64()
+	for _, b := range chain {
+		si, sf = b.ai(si), b.af(sf)
+	}
+	var issues z.ZogIssueList
+	var got float64
+	if place == 0 {
+		if float {
+			d := subj
+			if mode == 0 {
+				d = -1
+				issues = sf.Parse(subj, &d)
+			} else {
+				issues = sf.Validate(&d)
+			}
+			got = d
+		} else {
+			d := int(subj)
+			if mode == 0 {
+				d = -1
+				issues = si.Parse(int(subj), &d)
+			} else {
+				issues = si.Validate(&d)
+			}
+			got = float64(d)
+		}
+	} else {
+		sc := z.Struct(z.Schema{"i": si.Optional(), "f": sf.Optional()})
+		d := c01Num{}
+		if mode == 0 {
+			in := map[string]any{"i": int(subj)}
+			if float {
+				in = map[string]any{"f": subj}
+			}
+			for k, l := range sc.Parse(in, &d) {
+				if k != "$first" {
+					issues = append(issues, l...)
+				}
+			}
+		} else {
+			d.I, d.F = int(subj), subj
+			if float {
+				d.I = 0
+			} else {
+				d.F = 0
+			}
+			// the other field is zero: optional, so not tested
+			for k, l := range sc.Validate(&d) {
+				if k != "$first" {
+					issues = append(issues, l...)
+				}
+			}
+		}
+		got = float64(d.I)
+		if float {
+			got = d.F
+		}
+	}
+	zh.Reset()
+	var want, codes []string
+	for _, b := range chain {
+		if !b.pred(got) {
+			want = append(want, b.code)
+		}
+	}
+	for _, is := range issues {
+		codes = append(codes, is.Code)
+	}
+	out := &mc.Outcome{Traces: 1, Nontrivial: len(issues) == 0, Sig: fmt.Sprintf("numchain|%v|%v|%d|%d|%v", names, float, place, mode, len(issues) == 0)}
+	out.Sample = map[string]any{"chain": names, "float64": float, "subject": subj, "placement": place, "mode": mode, "codes": codes}
+	note := func() {
+		x.Note("chain %v on %s, subject %v, placement %d (0 top, 1 field), mode %d (0 Parse, 1 Validate)", names, map[bool]string{false: "Int()", true: "Float64()"}[float], subj, place, mode)
+	}
+	switch {
+	case got != subj && len(issues) == 0:
+		note()
+		out.Viol = append(out.Viol, &mc.Violation{Key: "C01:number-bound-chain:value", What: "the destination does not hold the supplied number", Expected: fmt.Sprint(subj), Observed: fmt.Sprint(got)})
+	case len(issues) == 0 && len(want) > 0:
+		note()
+		out.Viol = append(out.Viol, &mc.Violation{Key: "C01:number-bound-chain:clean-despite-violation", What: "no issue was reported although the destination value violates a declared bound", Expected: fmt.Sprintf("issues with codes %v", want), Observed: fmt.Sprintf("no issues; destination %v", got)})
+	case !eqStrings(codes, want):
+		note()
+		out.Viol = append(out.Viol, &mc.Violation{Key: "C01:number-bound-chain:codes", What: "the reported issues are not the failing declared bounds, one each, in declaration order", Expected: fmt.Sprint(want), Observed: fmt.Sprint(codes)})
 	}
 	return out
 }
